@@ -501,6 +501,17 @@ func cmdScript(args []string) {
 	mon.extra = append(mon.extra, func(sc *StepCtx) {
 		fmt.Printf("  [%d] h=%d t=%s %-90.90s %s res=%s %.80s\n", sc.Idx, sc.Post.Height, sc.Post.Time.Format("15:04:05.999999999"), sc.Step.Desc, sc.Step.Note, okStr(sc.Res), sc.Res.Err)
 	})
+	if os.Getenv("CHAINMON_BINDINGS") != "" {
+		mon.extra = append(mon.extra, func(sc *StepCtx) {
+			if sc.IsBlock() {
+				for _, bk := range sortedKeys(sc.Post.Bindings) {
+					b := sc.Post.Bindings[bk]
+					fmt.Printf("        %x dep=%s avail=%v\n", []byte(b.Provider), b.Deposit, b.Available)
+				}
+				fmt.Printf("        supply=%s deposits-account=%s\n", sc.Post.Supply, sc.Post.Bal[hexs(sc.run.w.actors["deposits"])])
+			}
+		})
+	}
 	runScript(NewApp(), mon, 1, v)
 	for _, vi := range st.Violations {
 		fmt.Printf("VIOLATION %s step=%d %s\n", vi.Sig, vi.StepIdx, vi.Msg)
